@@ -8,10 +8,9 @@
 extern int gh_conv_zero;   /* the most recent strBaseTo* / strTo* conversion consumed no character */
 
 #define PLEX(c) (&(c)->param_list.lex_state)
-/* parameter cursor inside a NUL-terminated buffer: the NUL (index gh_nul >= len) is what bounds
- * strtol/strtod when they run past the end of a token (C01 mechanism) */
-#define PARAM_LEX_PRE(c) (PLEX(c)->len >= 0 && PLEX(c)->len <= LEXMAX && gh_nul >= (size_t) PLEX(c)->len && gh_nul <= LEXMAX + 16 \
-    && __CPROVER_is_fresh(PLEX(c)->buffer, gh_nul + 1) && PLEX(c)->buffer[gh_nul] == 0 \
+/* parameter cursor: the program data of the current unit plus one more readable byte (the input buffer
+ * is NUL-terminated beyond it; that the libc conversions stop there is their assumed contract) */
+#define PARAM_LEX_PRE(c) (PLEX(c)->len >= 0 && PLEX(c)->len <= LEXMAX && __CPROVER_is_fresh(PLEX(c)->buffer, (size_t) PLEX(c)->len + 1) \
     && __CPROVER_pointer_in_range_dfcc(PLEX(c)->buffer, PLEX(c)->pos, PLEX(c)->buffer + PLEX(c)->len))
 #define CTX_PARAM_PRE(c) (CTX_ERR_PRE(c) && GH_RANGES && PARAM_LEX_PRE(c) && (c)->input_count >= 0 && (c)->input_count < 30000)
 #define PPOS0(c) OLD(PLEX(c)->pos)
@@ -41,6 +40,7 @@ __CPROVER_ensures((parameter != NULL && !P_ATEND0(context) && OLD(context->input
 __CPROVER_ensures(RET ==> (parameter != NULL && IS_DATA_TYPE(parameter->type) && NO_PUSH(context) && context->input_count == OLD(context->input_count) + 1
     && parameter->len >= 0 && __CPROVER_pointer_in_range_dfcc(PPOS0(context), parameter->ptr, PLEX(context)->pos)
     && OFF(parameter->ptr) + parameter->len <= OFF(PLEX(context)->pos)))
+__CPROVER_ensures((RET && (parameter->type == SCPI_TOKEN_SINGLE_QUOTE_PROGRAM_DATA || parameter->type == SCPI_TOKEN_DOUBLE_QUOTE_PROGRAM_DATA || parameter->type == SCPI_TOKEN_PROGRAM_EXPRESSION)) ==> parameter->len >= 2)
 __CPROVER_ensures((!RET && parameter != NULL && !P_ATEND0(context) && (OLD(context->input_count) == 0 || PPOS0(context)[0] == ','))
     ==> (PUSHED_ONE(context, SCPI_ERROR_INVALID_STRING_DATA) && parameter->type == SCPI_TOKEN_UNKNOWN && context->input_count == OLD(context->input_count) + 1))
 /* summary: failure queues exactly one error, except for the absent optional parameter */
@@ -80,6 +80,7 @@ __CPROVER_requires(CTX_ERR_PRE(context) && GH_RANGES && __CPROVER_is_fresh(param
 __CPROVER_requires(value == NULL || __CPROVER_is_fresh(value, sizeof(*value))) \
 __CPROVER_requires(!SCPI_IS_NUMTYPE(parameter->type) || __CPROVER_is_fresh(parameter->ptr, 1)) \
 __CPROVER_assigns(gh_conv_zero, ERRPUSH_FRAME(context); value != NULL: *value) \
+__CPROVER_ensures(CTX_ERR_POST(context)) \
 __CPROVER_ensures(value == NULL ==> (!RET && PUSHED_ONE(context, SCPI_ERROR_SYSTEM_ERROR))) \
 __CPROVER_ensures(value != NULL ==> NO_PUSH(context)) \
 __CPROVER_ensures((value != NULL && SCPI_IS_NUMTYPE(parameter->type)) ==> RET == !gh_conv_zero) \
